@@ -7,9 +7,9 @@ Layers of the tie (all built from vlib.REPO's working tree):
          of trees the model allows (the order of violations is schedule dependent), plus the conservation predicate
          computed on the snapshots alone
 """
-import base64, json, os, re
+import base64, json, os, re, threading
 import vlib
-from vlib import cstr, clist, cbool, cnat
+from vlib import clist, cbool, cnat
 from common import proof_gate, proof_coverage
 
 HERE = os.path.dirname(os.path.abspath(__file__))
@@ -18,6 +18,32 @@ OVERLAY = os.path.join(vlib.VERIF, 'harness', 'overlay')
 
 def b64(s):
     return base64.b64decode(s)
+
+
+# Coq elaborates byte-list literals slowly (a few KB/s) and the same paths occur over and over in the case data: every
+# distinct string of a case file is defined once and referred to by name (one pool per thread = per case file).
+_pool = threading.local()
+
+
+def pool_begin():
+    _pool.m = {}
+
+
+def pool_defs():
+    """the definitions of the strings used since pool_begin; ends the pool"""
+    defs = ['Definition s%d : str := %s.' % (i, vlib.cstr(b)) for b, i in _pool.m.items()]
+    _pool.m = None
+    return defs
+
+
+def cstr(x):
+    b = x.encode('utf-8', 'surrogateescape') if isinstance(x, str) else bytes(x)
+    m = getattr(_pool, 'm', None)
+    if m is None:          # no pool active (other users of ws_term): a plain literal
+        return vlib.cstr(b)
+    if b not in m:
+        m[b] = len(m)
+    return 's%d' % m[b]
 
 
 def cstrs(xs):
@@ -29,6 +55,7 @@ def cmap(kvs):
 
 
 POL = {'error': 'PError', 'rename': 'PRename'}
+EKIND = {'file': 'EFile', 'dir': 'EDir', 'symlink': 'ESymlink'}
 RES = {'ok': 0, 'conflict': 1, 'notfound': 2}
 
 
@@ -54,9 +81,14 @@ def seq_term(c):
         clist(conf_term(x) for x in (c['conflicts'] or [])))
 
 
-def run_overlays(ctx):
-    """returns the list of unit cases observed on the implementation"""
+def run_overlays(ctx, replay=None):
+    """returns the list of unit cases observed on the implementation; replay = ('seq', history) | ('cleanup', tree)
+    re-runs just that case"""
     env = {'VERIF_SEED': str(ctx.seed), 'VERIF_TIER': ctx.tier}
+    if replay is not None:
+        rf = os.path.join(ctx.tmp, 'c13_replay_unit.json')
+        json.dump(replay[1], open(rf, 'w'))
+        env['VERIF_C13_REPLAY_SEQ' if replay[0] == 'seq' else 'VERIF_C13_REPLAY_CLEANUP'] = rf
     out1 = os.path.join(ctx.tmp, 'c13_fixer.jsonl')
     rc, log = vlib.go_test_overlay(ctx, './pkg/fixer', {'pkg/fixer/zz_verif_c13_test.go': os.path.join(OVERLAY, 'c13_fixer_test.go')},
                                    'TestVerifC13$', env_extra=dict(env, VERIF_OUT=out1))
@@ -67,7 +99,67 @@ def run_overlays(ctx):
                                    'TestVerifC13Util$', env_extra=dict(env, VERIF_OUT=out2))
     if rc != 0 or not os.path.exists(out2):
         raise vlib.HarnessBuildError('overlay test in internal/util failed:\n' + log[-3000:])
-    return [json.loads(l) for l in open(out1)] + [json.loads(l) for l in open(out2)]
+    cases = [json.loads(l) for l in open(out1)] + [json.loads(l) for l in open(out2)]
+    if replay is not None:   # the other overlay ran its whole generator: keep only the replayed kind
+        cases = [c for c in cases if c['kind'] == replay[0] and (c.get('hist') or c.get('tree'))]
+    return cases
+
+
+# ---- the property on the unit observations alone (no model) ---------------------------------------
+
+def history_predicate(c):
+    """a sequence of moves handled by Fixer.handleRename on a real provider: every content the provider was loaded with
+    is held exactly once afterwards, unless a conflict was registered (policy error: the command then stops before it
+    touches the disk); policy rename never registers a conflict and settles on a fresh name in the directory asked for;
+    nothing that exists on disk without having been loaded is written"""
+    if c['kind'] != 'seq' or c['status'] != 'ok' or any(o['op'] != 'move' for o in c['ops']):
+        return None
+    if c['policy'] == 'rename' and c['has_conflicts']:
+        return 'policy rename registered a conflict'
+    if c['has_conflicts']:
+        return None
+    want = sorted(v for _, v in c['init'])
+    got = sorted(v for _, v in c['files'])
+    if want != got:
+        lost = [v for v in want if v not in got]
+        dup = sorted({v for v in got if got.count(v) > 1})
+        who = [k for k, v in c['init'] if v in lost]
+        return 'no conflict registered, yet the content of %s is held %s' % (
+            ', '.join(who) or ', '.join(dup), 'nowhere' if lost else 'more than once')
+    loaded = {k for k, _ in c['init']}
+    for m in c['modified']:
+        if m in (c.get('disk') or []) and m not in loaded:
+            return 'writes %s, which exists on disk and was not loaded' % m
+    h = c.get('hist')
+    if h and c['policy'] == 'rename':
+        where = {v: k for k, v in c['files']}
+        for mv in h['moves']:
+            content = dict((k, v) for k, v in h['init'])[mv['from']]
+            if where[content].rsplit('/', 1)[0] != mv['to'].rsplit('/', 1)[0]:
+                return '%s was to move to %s, it is at %s' % (mv['from'], mv['to'], where[content])
+    return None
+
+
+def cleanup_predicate(c):
+    """DirCleanUpPaths lists directories only, never a preserved root, and only directories that are really empty once
+    the target and the directories listed before them are gone -- whatever else (hidden files, data files,
+    sub-directories, symbolic links) the tree holds"""
+    if c['err']:
+        return None
+    kinds = {e['path']: e['kind'] for e in c['entries']}
+    gone = {c['target']}
+    for d in c['got']:
+        if kinds.get(d) != 'dir':
+            return 'lists %s, which is not a directory' % d
+        if d in c['roots']:
+            return 'lists the root %s' % d
+        left = sorted(p for p in kinds if p.rsplit('/', 1)[0] == d and p not in gone)
+        if left:
+            return 'lists %s as empty, it still holds %s' % (d, ', '.join(x.rsplit('/', 1)[1] for x in left))
+        gone.add(d)
+    if not c['removable']:
+        return 'os.Remove fails on a listed directory: %s' % json.dumps(c.get('blocked'))
+    return None
 
 
 def eval_unit(ctx, cases, chunk=2500):
@@ -76,25 +168,38 @@ def eval_unit(ctx, cases, chunk=2500):
     seqs = [c for c in cases if c['kind'] == 'seq']
     fcmrs = [c for c in cases if c['kind'] == 'fcmr']
     cleans = [c for c in cases if c['kind'] == 'cleanup']
+    from concurrent.futures import ThreadPoolExecutor
     res = {'U1': [], 'U2': [], 'U3': [], 'U4': [], 'U5': [], 'fcmr_in_domain': 0}
-    n = max(len(cands), len(seqs), len(fcmrs), len(cleans), 1)
-    for i in range(0, n, chunk):
-        r = eval_unit_chunk(ctx, cands[i:i + chunk], seqs[i:i + chunk], fcmrs[i:i + chunk], cleans[i:i + chunk], i // chunk)
-        for k in ('U1', 'U2', 'U3', 'U4', 'U5'):
-            res[k] += [i + x for x in r[k]]
-        res['fcmr_in_domain'] += r['fcmr_in_domain']
+    # one case file per kind and slice, evaluated side by side (bounded memory per coqc)
+    jobs = []
+    for key, lst, size in (('cands', cands, chunk), ('seqs', seqs, min(chunk, 350)), ('fcmrs', fcmrs, chunk), ('cleans', cleans, min(chunk, 700))):
+        for i in range(0, len(lst), size):
+            jobs.append((key, i, lst[i:i + size]))
+
+    def one(job):
+        key, i, part = job
+        args = {'cands': [], 'seqs': [], 'fcmrs': [], 'cleans': []}
+        args[key] = part
+        return i, eval_unit_chunk(ctx, args['cands'], args['seqs'], args['fcmrs'], args['cleans'], '%s_%d' % (key, i))
+    with ThreadPoolExecutor(max_workers=6) as ex:
+        for i, r in ex.map(one, jobs):
+            for k in ('U1', 'U2', 'U3', 'U4', 'U5'):
+                res[k] += [i + x for x in r[k]]
+            res['fcmr_in_domain'] += r['fcmr_in_domain']
     return cands, seqs, fcmrs, cleans, res
 
 
 def eval_unit_chunk(ctx, cands, seqs, fcmrs, cleans, idx):
-    v = ['From Regal Require Import Check.C13Check.', 'Open Scope N_scope.']
+    pool_begin()
+    v = []
     v.append('Definition cands : list cand_case := ' + clist('(%s, %s)' % (cstr(b64(c['in'])), cstr(b64(c['out']))) for c in cands) + '.')
     v.append('Definition seqs : list seq_case := ' + clist(seq_term(c) for c in seqs) + '.')
     v.append('Definition fcmrs : list fcmr_case := ' + clist(
         '{| fc_path := %s; fc_roots := %s; fc_got := %s |}' % (cstr(c['path']), cstrs(c['roots']), cstr(c['got'])) for c in fcmrs) + '.')
     v.append('Definition cleans : list cleanup_case := ' + clist(
-        '{| cc_files := %s; cc_dirs := %s; cc_roots := %s; cc_target := %s; cc_got := %s; cc_err := %s |}' % (
-            cstrs(c['files']), cstrs(c['dirs']), cstrs(c['roots']), cstr(c['target']), cstrs(c['got']), cbool(c['err'])) for c in cleans) + '.')
+        '{| cc_entries := %s; cc_roots := %s; cc_target := %s; cc_got := %s; cc_err := %s |}' % (
+            clist('(%s, %s)' % (cstr(e['path']), EKIND[e['kind']]) for e in c['entries']), cstrs(c['roots']), cstr(c['target']),
+            cstrs(c['got']), cbool(c['err'])) for c in cleans) + '.')
     v.append('Definition U1 := Eval vm_compute in failing cand_agrees 0 cands.')
     v.append('Definition U2 := Eval vm_compute in failing seq_agrees 0 seqs.')
     v.append('Definition U3 := Eval vm_compute in failing fcmr_agrees 0 fcmrs.')
@@ -102,7 +207,8 @@ def eval_unit_chunk(ctx, cands, seqs, fcmrs, cleans, idx):
     v.append('Definition U5 := Eval vm_compute in failing cleanup_agrees 0 cleans.')
     v.append('Definition U6 := Eval vm_compute in length (filter fcmr_in_domain fcmrs).')
     v.append('Print U1. Print U2. Print U3. Print U4. Print U5. Print U6.')
-    rc, out = vlib.coq_eval(ctx, 'Cases_C13_unit_%d' % idx, '\n'.join(v))
+    v = ['From Regal Require Import Check.C13Check.', 'Open Scope N_scope.'] + pool_defs() + v
+    rc, out = vlib.coq_eval(ctx, 'Cases_C13_unit_%s' % idx, '\n'.join(v))
     if rc != 0:
         raise RuntimeError('unit case evaluation failed:\n' + out[-3000:])
     res = {k: vlib.parse_nat_list(out, k) for k in ('U1', 'U2', 'U3', 'U4', 'U5')}
@@ -209,11 +315,12 @@ def eval_ws(ctx, results, name='Cases_C13_ws', chunk=300):
 
 
 def eval_ws_chunk(ctx, results, name):
-    v = ['From Regal Require Import Check.C13Check.', 'Open Scope N_scope.']
-    v.append('Definition wss : list ws_case := ' + clist(ws_term(r) for r in results) + '.')
+    pool_begin()
+    v = ['Definition wss : list ws_case := ' + clist(ws_term(r) for r in results) + '.']
     v.append('Definition W1 := Eval vm_compute in failing ws_agrees 0 wss.')
     v.append('Definition W2 := Eval vm_compute in map ws_leaves wss.')
     v.append('Print W1. Print W2.')
+    v = ['From Regal Require Import Check.C13Check.', 'Open Scope N_scope.'] + pool_defs() + v
     rc, out = vlib.coq_eval(ctx, name, '\n'.join(v))
     if rc != 0:
         raise RuntimeError('workspace case evaluation failed:\n' + out[-3000:])
@@ -292,11 +399,49 @@ def predicate(r):
                     sr = o.rsplit('/', 1)[0] if '/' in o else ''
                 if not contains(sr, rel):
                     bad.append(('moved-out-of-root', '%s -> %s (root %s)' % (o, rel, sr or '.')))
+    # directories are removed only if really empty, and every bystander is untouched: a directory may only disappear
+    # when everything that was below it (at any depth) was a selected file that is no longer where it was (moved away)
+    # or a directory; hidden files, non-rego files, symbolic links and unselected files keep their directory alive,
+    # and a directory from below which nothing moved away (an empty or hidden sub-directory) is none of fix's business
+    if r['exit'] == 0 and not ws['dry_run']:
+        sel_set = set(selected(ws))
+        moved_out = {rel for rel in before['files'] if rel in sel_set and rel not in after['files']}
+        for d in before['dirs']:
+            if d in after['dirs']:
+                continue
+            below = [rel for rel in before['files'] if contains(d, rel)]
+            keep = [rel for rel in below if rel not in moved_out]
+            if keep:
+                bad.append(('non-empty-directory-removed', '%s (held %s)' % (d or '.', keep[0])))
+            elif not below:
+                bad.append(('bystander-directory-removed', d or '.'))
     # directories: none that still is (an ancestor of) a declared root disappears
     for d in before['dirs']:
         if d not in after['dirs'] and any(contains(d, rt) for rt in declared_roots(ws) if rt in before['dirs'] or rt == ''):
             bad.append(('root-directory-removed', d))
     return bad
+
+
+def bystanders(ws):
+    """entries of the workspace other than its rego files and root declarations, by kind"""
+    out = []
+    for o in ws.get('others') or []:
+        b = o.rsplit('/', 1)[-1]
+        out.append('hidden-file' if b.startswith('.') else 'file-in-subdir' if '/sub/' in '/' + o or '/.cache/' in '/' + o else 'plain-file')
+    for d in ws.get('empty_dirs') or []:
+        if d.rsplit('/', 1)[-1] in ('sub', '.cache'):
+            out.append('hidden-dir' if d.rsplit('/', 1)[-1].startswith('.') else 'empty-subdir')
+    for l, t in (ws.get('symlinks') or {}).items():
+        out.append('symlink-to-dir' if t in ('.', '..') else 'symlink-to-file')
+    return out
+
+
+def bystander_hist(results):
+    h = {}
+    for r in results:
+        for k in set(bystanders(r['ws'])):
+            h[k] = h.get(k, 0) + 1
+    return h
 
 
 CORPUS = os.path.join(vlib.VERIF, 'corpus', 'C13')
@@ -332,10 +477,13 @@ def shrink(ctx, h, regal, r, kind):
     changed = True
     while changed and n < 14:
         changed = False
-        for key in ('files', 'others', 'empty_dirs', 'manifests', 'cfg_roots'):
+        for key in ('files', 'others', 'empty_dirs', 'manifests', 'cfg_roots', 'symlinks'):
             for i in range(len(ws.get(key) or [])):
                 cand = json.loads(json.dumps(ws))
-                del cand[key][i]
+                if key == 'symlinks':
+                    del cand[key][sorted(cand[key])[i]]
+                else:
+                    del cand[key][i]
                 if key == 'files' and not cand['files']:
                     continue
                 got = still(cand)
@@ -350,6 +498,7 @@ def shrink(ctx, h, regal, r, kind):
 def sig_key(r, kind):
     ws = r['ws']
     return json.dumps({'files': [[f['path'], f['pkg']] for f in ws['files'] or []], 'others': ws.get('others') or [],
+                       'empty_dirs': ws.get('empty_dirs') or [], 'symlinks': ws.get('symlinks') or {},
                        'regal_dirs': ws.get('regal_dirs') or [], 'cfg_roots': ws.get('cfg_roots') or [], 'manifests': ws.get('manifests') or [],
                        'args': ws['args'], 'ignore': ws.get('ignore') or '', 'policy': ws['policy']}, sort_keys=True)
 
@@ -358,18 +507,38 @@ def run(ctx):
     from concurrent.futures import ThreadPoolExecutor
     h = vlib.build_harness(ctx, 'c13')
     regal = vlib.build_regal(ctx)
-    replay_ws = None
+    replay_ws = replay_unit = None
     if ctx.replay:
-        rp = json.load(open(ctx.replay))
-        replay_ws = (rp.get('case') or {}).get('ws')
+        case = json.load(open(ctx.replay)).get('case') or {}
+        replay_ws = case.get('ws')
+        if case.get('hist'):
+            replay_unit = ('seq', case['hist'])
+        elif case.get('tree'):
+            replay_unit = ('cleanup', case['tree'])
+
+    import time
+    tm = {}
 
     def unit_part():
-        cases = run_overlays(ctx)
-        return eval_unit(ctx, cases)
+        if replay_ws is not None:
+            return eval_unit(ctx, [])
+        t1 = time.time()
+        cases = run_overlays(ctx, replay_unit)
+        tm['overlay_tests'] = round(time.time() - t1, 1)
+        t1 = time.time()
+        res = eval_unit(ctx, cases)
+        tm['unit_case_evaluation'] = round(time.time() - t1, 1)
+        return res
 
     def ws_part():
+        if replay_unit is not None:
+            return [], [], []
+        t1 = time.time()
         results = run_ws(ctx, h, regal, replay_ws)
+        tm['workspace_runs'] = round(time.time() - t1, 1)
+        t1 = time.time()
         w1, w2 = eval_ws(ctx, results)
+        tm['workspace_case_evaluation'] = round(time.time() - t1, 1)
         return results, w1, w2
     with ThreadPoolExecutor(max_workers=2) as ex:
         fu = ex.submit(unit_part)
@@ -392,6 +561,32 @@ def run(ctx):
                                  'what': 'regal fix --force: ' + kind + ' ' + hs[0][1]},
                            signature={'kind': kind, 'key': sig_key(small, kind)})
             reported += 1
+    hist_hits = clean_hits = 0
+    for c in seqs:
+        w = history_predicate(c)
+        if w:
+            hist_hits += 1
+            if hist_hits <= 2:
+                disk = c.get('disk') or []
+                hist = c.get('hist') or {'shape': 'random-ops', 'policy': c['policy'], 'disk': bool(disk), 'init': c['init'],
+                                         'unloaded': [d for d in disk if d != '/R' and d not in {k for k, _ in c['init']}
+                                                      and not any(x.startswith(d + '/') for x in disk)],
+                                         'moves': [{'from': o['a'], 'to': o['b']} for o in c['ops']]}
+                vlib.violation(ctx, {'kind': 'fixer-history-not-conserved', 'case': {'hist': hist},
+                                     'observed': {k: c[k] for k in ('files', 'modified', 'deleted', 'conflicts', 'has_conflicts')},
+                                     'what': 'Fixer.handleRename on a real InMemoryFileProvider (%s, policy %s), moves in this order: %s: %s' % (
+                                         'from disk' if hist['disk'] else 'from a map', c['policy'],
+                                         '; '.join('%s -> %s' % (o['a'], o['b']) for o in c['ops']), w)},
+                               signature={'kind': 'fixer-history-not-conserved', 'key': json.dumps([c['policy'], c['init'], c['ops']], sort_keys=True)})
+    for c in cleans:
+        w = cleanup_predicate(c)
+        if w:
+            clean_hits += 1
+            if clean_hits <= 2:
+                vlib.violation(ctx, {'kind': 'cleanup-lists-non-empty-directory', 'case': {'tree': c['tree']}, 'got': c['got'],
+                                     'what': 'DirCleanUpPaths(%s, %r) = %r on a real tree (entries %s): %s' % (
+                                         c['target'], c['roots'], c['got'], ' '.join(e['path'] for e in c['entries']), w)},
+                               signature={'kind': 'cleanup-lists-non-empty-directory', 'key': json.dumps(c['tree'], sort_keys=True)})
     for c in seqs:
         if c['status'] == 'hang':
             vlib.violation(ctx, {'kind': 'rename-loop-does-not-terminate', 'case': {'seq': c},
@@ -437,6 +632,15 @@ def run(ctx):
         'workspace_runs': len(results), 'workspaces_distinct': distinct, 'workspaces_tree_changed': moved,
         'schedule_leaves_histogram': {str(k): leaves.count(k) for k in sorted(set(leaves))},
         'outcome_histogram': hist, 'predicate_hits': pred_hits,
+        'timing_s': tm,
+        'unit_predicate_hits': {'fixer_history': hist_hits, 'dir_cleanup': clean_hits},
+        'workspaces_with_bystanders': sum(1 for r in results if bystanders(r['ws'])),
+        'workspace_bystander_kinds': bystander_hist(results),
+        'ordered_histories': {'total': sum(1 for c in seqs if c.get('hist')),
+                              'by_shape': {k: sum(1 for c in seqs if (c.get('hist') or {}).get('shape') == k)
+                                           for k in sorted({(c.get('hist') or {}).get('shape') for c in seqs if c.get('hist')})}},
+        'cleanup_trees_with_bystanders': sum(1 for c in cleans if any(e['kind'] == 'symlink' or (e['kind'] == 'file' and not e['path'].endswith('.rego')
+                                                                         and e['path'] != '/R/keep.txt') or e['path'].endswith(('/sub', '/.cache')) for e in c['entries'])),
         'unit_cases': {'rename_candidate': len(cands), 'provider_handle_rename_sequences': len(seqs), 'closest_root': len(fcmrs), 'closest_root_in_spec_domain': ures['fcmr_in_domain'], 'dir_cleanup': len(cleans)},
         'mismatch': {'rename_candidate': len(ures['U1']), 'sequences': len(ures['U2']), 'closest_root': len(ures['U3']), 'closest_root_vs_spec': len(ures['U4']),
                      'dir_cleanup': len(ures['U5']), 'workspaces': len(w1)},
